@@ -231,7 +231,11 @@ func runMode(sum *lib.Summary) {
 		for _, native := range []bool{false, true} {
 			p := depthProgram(defaultDepth+dn, native)
 			cases = append(cases, fragCase{P: p, VM: true, Comp: 10_000_000, Depth: 0, Cat: "depth-boundary", Compare: true})
-			cases = append(cases, fragCase{P: p, VM: false, Comp: 10_000_000, Depth: 0, Cat: "depth-boundary", Compare: true})
+			// the call-depth error at depth 2000 costs the interpreter several seconds (every frame re-panics):
+			// the quick tier runs one such case
+			if *tier == "thorough" || (!native && dn <= 0) {
+				cases = append(cases, fragCase{P: p, VM: false, Comp: 10_000_000, Depth: 0, Cat: "depth-boundary", Compare: true})
+			}
 		}
 	}
 	for i := 0; i < nTerm; i++ {
@@ -303,6 +307,9 @@ func runMode(sum *lib.Summary) {
 	for _, fc := range cases {
 		id++
 		ec := execCase{ID: id, Src: fc.P.Cad, VM: fc.VM, CompLim: fc.Comp, MemLim: fc.Mem, DepthLim: fc.Depth}
+		if only := os.Getenv("C30_ONLY"); only != "" && only != fc.Cat {
+			continue
+		}
 		if timeouts[fc.Cat+engineName(fc.VM)] >= 2 {
 			sum.Count("skipped-after-two-timeouts:" + fc.Cat)
 			continue
@@ -375,6 +382,46 @@ func runMode(sum *lib.Summary) {
 			}
 		}
 	}
+	// memory-limit sweep: the same program under many memory limits between nothing and what it needs; the limit
+	// then strikes in every phase (parsing, checking, VM compilation, execution) and every outcome must be the
+	// memory-limit user error (or success)
+	nSweep := 24
+	if *tier == "thorough" {
+		nSweep = 160
+	}
+	for _, sp := range sweepPrograms() {
+		for _, vm := range []bool{false, true} {
+			id++
+			full, status := r.run(execCase{ID: id, Src: sp.Src, VM: vm, CompLim: 10_000_000})
+			sum.Evaluations++
+			if status != "ok" || full.Class != "" {
+				report("sweep-baseline:"+sp.Name, "memory sweep: the program does not run without a memory limit: "+full.Class,
+					map[string]any{"program": sp.Src, "observed": full, "status": status})
+				continue
+			}
+			for j := 1; j <= nSweep; j++ {
+				id++
+				lim := full.Mem * uint64(j) / uint64(nSweep+1)
+				if lim == 0 {
+					continue
+				}
+				res, status := r.run(execCase{ID: id, Src: sp.Src, VM: vm, CompLim: 10_000_000, MemLim: lim})
+				sum.Evaluations++
+				sum.Count("category:memory-sweep")
+				desc := map[string]any{"category": "memory-sweep:" + sp.Name, "engine": engineName(vm), "mem_limit": lim,
+					"memory_needed": full.Mem, "program": sp.Src, "observed": res, "status": status}
+				if !directJudge(sum, report, "memory-sweep:"+sp.Name, engineName(vm), status, res, desc) {
+					continue
+				}
+				distinct[fmt.Sprintf("%s|%v|%d", sp.Name, vm, lim)] = true
+				if res.Class != lib.ELimitMem {
+					report(fmt.Sprintf("memory-sweep-outcome:%s:%s", sp.Name, engineName(vm)),
+						fmt.Sprintf("memory sweep %s [%s]: limit %d of %d needed: expected LimitMemory, observed %q (%s)",
+							sp.Name, engineName(vm), lim, full.Mem, res.Class, res.ErrType), desc)
+				}
+			}
+		}
+	}
 	cw.Close()
 	sum.CaseFiles = cw.Files
 	sum.DistinctNontrivial = len(distinct)
@@ -422,6 +469,11 @@ func directJudge(sum *lib.Summary, report func(string, string, any), cat, eng, s
 				fmt.Sprintf("%s [%s]: %s is not reported as a user error (%s)", cat, eng, res.Class, res.ErrType), desc)
 		}
 	case lib.EInternal, lib.ECrash:
+		if res.Sig != "" {
+			report("internal-error:"+res.Sig,
+				fmt.Sprintf("%s [%s]: the run ended with an internal error instead of the limit error (%s)", cat, eng, res.Sig), desc)
+			return false
+		}
 		report(fmt.Sprintf("internal-error:%s:%s", cat, eng),
 			fmt.Sprintf("%s [%s]: the run ended with an internal error / crash (%s)", cat, eng, res.ErrType), desc)
 		return false
